@@ -14,7 +14,15 @@ Resurrects(k) == k \in {"tr", "ur"}
 (* generation *)
 VARIABLES nvals, depth, n, hist
 gvars == <<nvals, depth, n, hist>>
-GView == <<nvals, depth, n, [j \in 1..(IF n < 2 THEN n ELSE 2) |-> <<hist[n + 1 - j].a, hist[n + 1 - j].kind>>]>>
+(* the view distinguishes which kinds of values exist and which have been dropped, so every combination is explored *)
+KindsOf(h) == [i \in 1..Len(SelectSeq(h, LAMBDA a : a.a = "mk")) |-> SelectSeq(h, LAMBDA a : a.a = "mk")[i].kind]
+DroppedOf(h) == {h[i].id : i \in {j \in 1..Len(h) : h[j].a = "drop"}}
+RemarksOf(h) == [i \in 1..Len(SelectSeq(h, LAMBDA a : a.a = "remark")) |-> SelectSeq(h, LAMBDA a : a.a = "remark")[i].id]
+(* the value was created outside any limited context (re-marking is only generated there, in the pool that owns the value) *)
+RECURSIVE DepthAt(_, _)
+DepthAt(h, k) == IF k = 0 THEN 0 ELSE DepthAt(h, k - 1) + (IF h[k].a = "enter" THEN 1 ELSE IF h[k].a = "leave" THEN -1 ELSE 0)
+TopLevel(h, i) == \E k \in 1..Len(h) : h[k].a = "mk" /\ h[k].id = i /\ DepthAt(h, k) = 0
+GView == <<KindsOf(hist), DroppedOf(hist), RemarksOf(hist), depth, n, IF n = 0 THEN "-" ELSE hist[n].a>>
 Emit(v) == PrintT(<<"@@", ToJson(v)>>)
 
 GInit == nvals = 0 /\ depth = 0 /\ n = 0 /\ hist = <<>>
@@ -24,6 +32,9 @@ GNext ==
   /\ n < MaxSteps
   /\ \/ \E k \in Kinds : nvals < MaxVals /\ (k = "uk" => depth > 0) /\ GStep([a |-> "mk", id |-> nvals + 1, kind |-> k], nvals + 1, depth)
      \/ \E i \in 1..nvals : GStep([a |-> "drop", id |-> i, kind |-> "-"], nvals, depth)
+     \/ \E i \in 1..nvals : /\ depth = 0 /\ i \notin DroppedOf(hist) /\ KindsOf(hist)[i] \in {"t", "tr"} /\ TopLevel(hist, i)
+                             /\ Len(RemarksOf(hist)) < 2
+                             /\ GStep([a |-> "remark", id |-> i, kind |-> "-"], nvals, depth)
      \/ GStep([a |-> "collect", id |-> 0, kind |-> "-"], nvals, depth)
      \/ (depth < MaxDepth /\ GStep([a |-> "enter", id |-> 0, kind |-> "-"], nvals, depth + 1))
      \/ \E how \in {"normal", "error", "kill"} : depth > 0 /\ GStep([a |-> "leave", id |-> 0, kind |-> how], nvals, depth - 1)
